@@ -313,6 +313,49 @@ def native_cid_paths():
     return dict(count=n, failures=failures, samples=[])
 
 
+def native_real_csv_rows():
+    """concrete: every row the csv module delivers is judged -- a blank line is a row with no items (rejected for its
+    item count and counted), a row of empty items under a CID whose fields may all be empty is accepted and returned"""
+    import csv
+    import io
+    from cutplace import interface, validio, errors
+    failures = []
+    n = 0
+    cases = [("d,format,delimited\nf,a,,,1\nf,b,,X,...1\n", "x,y\n\nz,\n"), ("d,format,delimited\nf,a,,,1\nf,b,,X,...1\n", "\nx,y\n"),
+             ("d,format,delimited\nf,a,,,1\nf,b,,X,...1\n", "x,y\n\n\n"), ("d,format,delimited\nf,a,,X,...1\nf,b,,X,...1\n", "x,y\n,\nz,\n,\n"),
+             ("d,format,delimited\nf,a,,X,...1\n", 'x\n""\ny\n'), ("d,format,delimited\nf,a,,X,...1\nf,b,,X\nf,c,,X\n", ",,\nx,,\n,,\n"),
+             ("d,format,delimited\nd,header,1\nf,a,,X,...1\nf,b,,X\n", "h1,h2\n,\nx,\n\n,\n")]
+    for cid_text, data in cases:
+        n += 1
+        cid = interface.create_cid_from_string(cid_text)
+        header = cid.data_format.header
+        rows = list(csv.reader(io.StringIO(data, newline=""), strict=True))
+        nfields = len(cid.field_names)
+        exp = []
+        for i, row in enumerate(rows):
+            if i < header:
+                continue
+            ok_row = len(row) == nfields and all(
+                (cell != "" or f.is_allowed_to_be_empty) and (f.length.upper_limit is None or len(cell) <= f.length.upper_limit)
+                for cell, f in zip(row, cid.field_formats))
+            exp.append(("row", row) if ok_row else ("err", i, 0 if len(row) != nfields else None))
+        try:
+            reader = validio.Reader(cid, io.StringIO(data, newline=""), on_error="yield")
+            got = list(reader.rows())
+            counts = (reader.accepted_rows_count, reader.rejected_rows_count)
+        except Exception as e:  # noqa
+            failures.append(dict(key="row-verdict", what="CID %r data %r raised %s: %s" % (cid_text, data, type(e).__name__, e), args=dict(data=data)))
+            continue
+        obs = [("err", r.location.line, r.location.cell) if isinstance(r, errors.DataError) else ("row", r) for r in got]
+        same = len(obs) == len(exp) and all(o[0] == e[0] and (o[1] == e[1]) and (e[0] == "row" or e[2] is None or o[2] == e[2])
+                                             for o, e in zip(obs, exp))
+        exp_counts = (sum(1 for e in exp if e[0] == "row"), sum(1 for e in exp if e[0] == "err"))
+        if not same or counts != exp_counts:
+            failures.append(dict(key="row-verdict", what="CID %r, data %r (csv rows %r): produced %r with counters %r, expected %r with counters %r" % (
+                cid_text, data, rows, obs, counts, exp, exp_counts), args=dict(data=data)))
+    return dict(count=n, failures=failures, samples=[])
+
+
 def build(tier, seed):
     rnd = random.Random(seed)
     queries = []
@@ -337,6 +380,8 @@ def build(tier, seed):
         res = native_key_collisions("row-verdict")
         more = native_hostile_rows()
         paths = native_cid_paths()
+        blanks = native_real_csv_rows()
+        paths = dict(count=paths["count"] + blanks["count"], failures=paths["failures"] + blanks["failures"])
         return dict(count=res["count"] + more["count"] + paths["count"], failures=res["failures"] + more["failures"] + paths["failures"],
                     samples=[])
 
